@@ -220,6 +220,35 @@ class RefEval:
     def ev_AppArg(self, e, fr):
         return self.w.txn_field("ApplicationArgs", None, e[1])
 
+    def _conc_index(self, u, limit: int, what: str) -> int:
+        """a uint64 used as an index: fails above the limit, otherwise one path per feasible value"""
+        if u.concrete:
+            self.path.fail_if(u.e > limit, "range:" + what)
+            return u.e
+        self.path.fail_if(z3.UGT(u.e, z3.BitVecVal(limit, 64)), "range:" + what)
+        return self.path.choose(limit + 1, [u.e == z3.BitVecVal(i, 64) for i in range(limit + 1)])
+
+    def ev_AppArgRt(self, e, fr):
+        i = self.ev(e[1], fr)
+        return self.w.txn_field("ApplicationArgs", None, self._conc_index(i, 255, "txnas index"))
+
+    def ev_LsigArgRt(self, e, fr):
+        i = self.ev(e[1], fr)
+        return self.w.arg(self._conc_index(i, 255, "args index"))
+
+    def ev_GtxnRt(self, e, fr):
+        g = self.ev(e[1], fr)
+        return self.w.txn_field(e[2], self._conc_index(g, 15, "gtxns group index"))
+
+    def ev_GtxnArgRt(self, e, fr):
+        g = e[1] if isinstance(e[1], int) else None
+        if g is None:
+            g = self._conc_index(self.ev(e[1], fr), 15, "gtxnsas group index")
+        i = e[2] if isinstance(e[2], int) else None
+        if i is None:
+            i = self._conc_index(self.ev(e[2], fr), 255, "gtxnsas index")
+        return self.w.txn_field("ApplicationArgs", g, i)
+
     def ev_LsigArg(self, e, fr):
         return self.w.arg(e[1])
 
